@@ -136,7 +136,26 @@ def make_state(rng, spec):
     return sv
 
 
+def finite_state(sv):
+    import numpy as np
+    cov = sv._data.get("cov")
+    return bool(np.all(np.isfinite(np.asarray(sv))) and (cov is None or np.all(np.isfinite(np.asarray(cov)))))
+
+
 def rand_spec(rng, **force):
+    """a random object description whose state is finite (elements of a state that is hyperbolic relative to a rotating
+    frame are NaN in the tle / mean forms; every later operation on such an object is garbage in, garbage out)"""
+    for _ in range(50):
+        spec = _rand_spec(rng, **force)
+        try:
+            if finite_state(make_state(rng, spec)):
+                return spec
+        except Exception:
+            pass
+    return _rand_spec(rng, **dict(force, form="cartesian", frame="EME2000"))
+
+
+def _rand_spec(rng, **force):
     spec = {"kep": rand_coord(rng), "form": rng.choice(FORMS), "frame": rng.choice(FRAMES), "orbit": rng.random() < 0.4,
             "cov": rng.random() < 0.5, "covframe": rng.choice([None, None, "TNW", "QSW"]), "mans": rng.choice([0, 0, 1, 2]),
             "meta": rng.random() < 0.6, "dt": rng.randrange(0, 86400)}
